@@ -62,6 +62,7 @@ ASSUMPTIONS = [
 
 S = U.S
 OPS = ['sr', 'sm', 'en', 'ri', 'rm', 'rt', 'ca', 'ex']
+MORE_OPS = ['si']            # send_message whose send_request is implicit (nested `with wrapper`)
 REASONS = ['paused', 'credit', 'slot', 'silent']
 ANSWERS = ['never', 'before', 'at', 'after']
 ULP52 = Fraction(1, 2 ** 52)
@@ -248,8 +249,10 @@ def client_oracle(case, obs):
                  % (name, r['res']), call=name)
         if start > D and at != start:
             flag('blocked-after-deadline', '%s started after the deadline and waited' % name, call=name)
-    if D is None and (obs['armed_end'] or obs.get('armed_after_exit')):
-        flag('timer-without-deadline', 'a deadline timer exists for a call without timeout')
+    by = obs.get('bystander') or {}
+    if by.get('res', 'pending') != 'pending':
+        flag('bystander-interrupted', 'an unrelated call WITHOUT timeout, blocked in recv_message, ended with %s '
+             'at %r while this call ran' % (by['res'], by.get('at')))
     # the wire
     for a, v, n in obs['frames']:
         if D is None:
@@ -292,6 +295,9 @@ def server_oracle(c, obs):
     def flag(kind, what, **kw):
         bad.append((what, dict(base, kind=kind, **kw)))
 
+    if obs.get('bystander_cancelled') is not None:
+        flag('bystander-interrupted', 'an unrelated request WITHOUT grpc-timeout was cancelled at %r'
+             % obs['bystander_cancelled'])
     vals = [wire_value(v) for v in c['values']]
     status = obs['status']
     a = Fraction(c['a'])
@@ -304,8 +310,8 @@ def server_oracle(c, obs):
                  % (c['values'], status, obs['started'] is not None))
         return bad
     if not vals:
-        if obs['cancel_at'] is not None or obs['armed_end']:
-            flag('interrupted-without-deadline', 'no grpc-timeout, yet the handler was cancelled / a timer exists')
+        if obs['cancel_at'] is not None:
+            flag('interrupted-without-deadline', 'no grpc-timeout, yet the handler was cancelled')
         if status != own[c['fin']]:
             flag('status-without-deadline', 'no grpc-timeout: status %r, expected %r' % (status, own[c['fin']]))
         return bad
@@ -530,13 +536,13 @@ def run(ctx):
     # complete op x reason x answer matrix, for a timeout of every unit range (all timeouts when thorough)
     matrix_ts = ts
     for t in matrix_ts:
-        for op in OPS:
+        for op in OPS + MORE_OPS:
             for reason in REASONS:
                 for answer in ANSWERS:
                     do_client(res, client_case(op, reason, answer, t), batch)
                     n_matrix += 1
     # calls without a timeout: never interrupted
-    for op in OPS:
+    for op in OPS + MORE_OPS:
         for reason in REASONS:
             for answer in ('never', 'after'):
                 do_client(res, client_case(op, reason, answer, None), batch)
@@ -549,7 +555,7 @@ def run(ctx):
         t0 = rng.choice([0, S, 1024 * S + S // 2, 2 ** 16 * S])
         if t0 + 4 * t + delay >= U.FAR:
             t0 = 0
-        do_client(res, client_case(rng.choice(OPS), rng.choice(REASONS), rng.choice(ANSWERS), t,
+        do_client(res, client_case(rng.choice(OPS + MORE_OPS), rng.choice(REASONS), rng.choice(ANSWERS), t,
                                    delay=delay, t0=t0), batch)
     for c in server_cases(rng, ctx.n(1500, 25000), True):
         do_server(res, c, batch)
